@@ -54,6 +54,7 @@ const PgP kPg[] = {{100, 100}, {100, 300}, {300, 100}, {0, 1LL << 40}, {100, 101
 struct Item {
   int fam;  // 0 kmg, 1 swap, 2 pressure, 3 io, 4 pgscan
   std::vector<int> p;
+  int n = 3;  // number of siblings (kmg family also runs with 4 and 5: the percentile index depends on it)
 };
 
 struct C09 : vr::Driver {
@@ -73,6 +74,33 @@ struct C09 : vr::Driver {
             for (int gr = 0; gr < 3; gr++)
               for (int pc = 0; pc < 4; pc++) items.push_back({0, {a, b, c, st, gr, pc}});
         }
+    // kmg with 4 and 5 siblings (growing_size_percentile picks a different index than with 3): 6 profiles
+    {
+      const std::vector<int> sub = {0, 1, 2, 4, 8, 9};
+      for (int n : {4, 5}) {
+        if (!th && n == 5) continue;
+        std::vector<int> idx(n, 0);
+        while (true) {
+          bool sortedUp = true;
+          for (int k = 1; k < n; k++) sortedUp &= idx[k - 1] <= idx[k];
+          if (sortedUp || (th && n == 4)) {  // multisets; all sequences for n=4 in thorough
+            for (int st = 0; st < 3; st++)
+              for (int gr = 0; gr < 3; gr++)
+                for (int pc = 0; pc < 4; pc++) {
+                  Item it{0, {}, n};
+                  for (int k = 0; k < n; k++) it.p.push_back(sub[idx[k]]);
+                  it.p.push_back(st);
+                  it.p.push_back(gr);
+                  it.p.push_back(pc);
+                  items.push_back(it);
+                }
+          }
+          int k = 0;
+          while (k < n && ++idx[k] == (int)sub.size()) idx[k++] = 0;
+          if (k == n) break;
+        }
+      }
+    }
     int nS = th ? 8 : 6;
     for (int a = 0; a < nS; a++)
       for (int b = 0; b < nS; b++)
@@ -116,11 +144,12 @@ struct C09 : vr::Driver {
     s.plugin = pluginOf(it.fam);
     s.args["cgroup"] = "p/*";
     s.args["dry"] = "true";
-    const char* names[] = {"p/a", "p/b", "p/c"};
+    static const char* names[] = {"p/a", "p/b", "p/c", "p/d", "p/e"};
+    const int N = it.n;
     Cg parent;
     parent.rel = "p";
     s.cgs.push_back(parent);
-    for (int k = 0; k < 3; k++) {
+    for (int k = 0; k < N; k++) {
       Cg c;
       c.rel = names[k];
       c.nprocs = 2;
@@ -132,14 +161,15 @@ struct C09 : vr::Driver {
       static const char* st[] = {"0", "50", "100"};
       static const char* gr[] = {"1", "1.25", "1.5"};
       static const char* pc[] = {"0", "50", "80", "99"};
-      s.args["size_threshold"] = st[P[3]];
-      s.args["min_growth_ratio"] = gr[P[4]];
-      s.args["growing_size_percentile"] = pc[P[5]];
+      s.args["size_threshold"] = st[P[N]];
+      s.args["min_growth_ratio"] = gr[P[N + 1]];
+      s.args["growing_size_percentile"] = pc[P[N + 2]];
       s.ticks = kWarm + 1;
-      std::vector<Prof> pr = {kKmg[P[0]], kKmg[P[1]], kKmg[P[2]]};
-      s.onTick = [pr, names](int k) {
+      std::vector<Prof> pr;
+      for (int i = 0; i < N; i++) pr.push_back(kKmg[P[i]]);
+      s.onTick = [pr, N](int k) {
         long long sum = 0;
-        for (int i = 0; i < 3; i++) {
+        for (int i = 0; i < N; i++) {
           long long u = k <= kWarm ? pr[i].prev : pr[i].cur;
           world::setMem(names[i], u);
           world::setFile(names[i], "memory.low", std::to_string(pr[i].low) + "\n");
@@ -156,7 +186,7 @@ struct C09 : vr::Driver {
       s.ticks = 1;
       std::vector<long long> sw = {kSwapVals[P[0]], kSwapVals[P[1]], kSwapVals[P[2]]};
       bool prot = P[6];
-      s.onTick = [sw, names, prot](int) {
+      s.onTick = [sw, prot](int) {
         long long sum = 0;
         for (int i = 0; i < 3; i++) {
           world::setFile(names[i], "memory.swap.current", std::to_string(sw[i]) + "\n");
@@ -173,7 +203,7 @@ struct C09 : vr::Driver {
       s.ticks = 1;
       std::vector<PsiP> ps = {kPsi[P[0]], kPsi[P[1]], kPsi[P[2]]};
       bool io = P[3];
-      s.onTick = [ps, names, io](int) {
+      s.onTick = [ps, io](int) {
         for (int i = 0; i < 3; i++) {
           world::Psi full{ps[i].a10, ps[i].a60, 1.0, 1000}, other{0.01, 0.01, 0.01, 1};
           world::setPsi(names[i], io ? "io" : "memory", other, full);
@@ -183,7 +213,7 @@ struct C09 : vr::Driver {
     } else if (it.fam == 3) {
       s.ticks = 3;
       std::vector<IoP> ps = {kIo[P[0]], kIo[P[1]], kIo[P[2]]};
-      s.onTick = [ps, names](int k) {
+      s.onTick = [ps](int k) {
         for (int i = 0; i < 3; i++) {
           long long r = k <= 2 ? ps[i].r0 : ps[i].r1, w = k <= 2 ? ps[i].w0 : ps[i].w1;
           const char* dev = ps[i].dev == 0 ? "8:0" : ps[i].dev == 1 ? "8:16" : "9:0";
@@ -194,7 +224,7 @@ struct C09 : vr::Driver {
     } else {
       s.ticks = 3;
       std::vector<PgP> ps = {kPg[P[0]], kPg[P[1]], kPg[P[2]]};
-      s.onTick = [ps, names](int k) {
+      s.onTick = [ps](int k) {
         for (int i = 0; i < 3; i++) world::setMemStatKey(names[i], "pgscan", k <= 2 ? ps[i].p0 : ps[i].p1);
       };
     }
@@ -222,7 +252,8 @@ struct C09 : vr::Driver {
     for (auto& a : o.attempts)
       if (a.tick == evalTick && chosen.empty()) chosen = a.victim;
     // reference
-    const char* names[] = {"p/a", "p/b", "p/c"};
+    const char* names[] = {"p/a", "p/b", "p/c", "p/d", "p/e"};
+    const int N = it.n;
     struct Cand {
       bool definitelyEligible = true, definitelyIneligible = false;
       int phase = 1;            // smaller = better
@@ -230,16 +261,16 @@ struct C09 : vr::Driver {
       ld tol = 0;
       bool openRank = false;    // position left open by the statement
     };
-    Cand c[3];
+    Cand c[5];
     bool open = false;  // scenario sits on a threshold within tolerance: nothing demanded
     std::ostringstream expl;
     auto& P = it.p;
     if (it.fam == 0) {
       static const int stv[] = {0, 50, 100}, pcv[] = {0, 50, 80, 99};
       static const ld grv[] = {1.0L, 1.25L, 1.5L};
-      ld usage[3], eff[3], ratio[3], avgv[3];
+      ld usage[5], eff[5], ratio[5], avgv[5];
       ld total = 0;
-      for (int i = 0; i < 3; i++) {
+      for (int i = 0; i < N; i++) {
         const Prof& pr = kKmg[P[i]];
         ld avg = 0;
         for (int k = 1; k <= kWarm + 1; k++) {
@@ -253,21 +284,22 @@ struct C09 : vr::Driver {
         ratio[i] = avg > 0 ? usage[i] / avg : 0;
         total += usage[i];
       }
-      ld T = total * stv[P[3]] / 100;
-      int pc = pcv[P[5]];
+      ld T = total * stv[P[N]] / 100;
+      int pc = pcv[P[N + 2]];
       ld effThr = 0;
       if (pc > 0) {
-        int nth = (int)ceill(3 * (100 - (ld)pc) / 100) - 1;
-        ld sorted[3] = {eff[0], eff[1], eff[2]};
-        std::sort(sorted, sorted + 3, [](ld a, ld b) { return a > b; });
+        // 'the biggest growing_size_percentile by size': the top (100-pc)% of the N siblings, at least one of them
+        int nth = (int)ceill(N * (100 - (ld)pc) / 100) - 1;
+        std::vector<ld> sorted(eff, eff + N);
+        std::sort(sorted.begin(), sorted.end(), [](ld a, ld b) { return a > b; });
         effThr = sorted[nth];
       }
-      for (int i = 0; i < 3; i++) {
+      for (int i = 0; i < N; i++) {
         ld tolT = T * 1e-9L + 1, tolR = ratio[i] * (1e-5L + (avgv[i] > 0 ? 8 / avgv[i] : 0));
         bool size1 = usage[i] >= T;
-        if (fabsl(usage[i] - T) <= tolT && stv[P[3]] != 0) open = true;
-        bool grow = ratio[i] >= grv[P[4]] && eff[i] >= effThr;
-        if (fabsl(ratio[i] - grv[P[4]]) <= tolR) open = true;
+        if (fabsl(usage[i] - T) <= tolT && stv[P[N]] != 0) open = true;
+        bool grow = ratio[i] >= grv[P[N + 1]] && eff[i] >= effThr;
+        if (fabsl(ratio[i] - grv[P[N + 1]]) <= tolR) open = true;
         if (avgv[i] > 0 && avgv[i] < 1000) open = true;  // integer EWMA of tiny values: left open
         c[i].phase = size1 ? 1 : grow ? 2 : 3;
         c[i].key = c[i].phase == 2 ? ratio[i] : eff[i];
@@ -339,16 +371,16 @@ struct C09 : vr::Driver {
     }
     r.counters["scenarios_open_on_threshold"] += open;
     std::string obs = std::string(s.plugin) + ":" + chosen + ":";
-    for (int i = 0; i < 3; i++) obs += std::to_string(c[i].phase) + (c[i].definitelyIneligible ? "x" : "e");
+    for (int i = 0; i < N; i++) obs += std::to_string(c[i].phase) + (c[i].definitelyIneligible ? "x" : "e");
     if (!open) {
       auto fail = [&](const std::string& rule, const std::string& text) {
         r.violate(cls + "model-mismatch:" + rule, describe(idx) + "\nfirst choice: '" + chosen + "'\n" + text + "\nreference view:\n" + expl.str());
       };
       int ci = -1;
-      for (int i = 0; i < 3; i++)
+      for (int i = 0; i < N; i++)
         if (chosen == names[i]) ci = i;
       bool anyEligible = false;
-      for (int i = 0; i < 3; i++) anyEligible |= (c[i].definitelyEligible && !c[i].definitelyIneligible);
+      for (int i = 0; i < N; i++) anyEligible |= (c[i].definitelyEligible && !c[i].definitelyIneligible);
       if (chosen.empty()) {
         if (anyEligible) return fail("nothing-chosen", "an eligible candidate exists but no victim was selected");
       } else if (ci < 0) {
@@ -356,7 +388,7 @@ struct C09 : vr::Driver {
       } else if (c[ci].definitelyIneligible) {
         return fail("ineligible-chosen", std::string(names[ci]) + " fails the plugin's eligibility filter but was chosen");
       } else {
-        for (int j = 0; j < 3; j++) {
+        for (int j = 0; j < N; j++) {
           if (j == ci || c[j].definitelyIneligible) continue;
           if (c[j].openRank || c[ci].openRank) continue;
           bool better = c[j].phase < c[ci].phase || (c[j].phase == c[ci].phase && dgt(c[j].key, c[ci].key, std::max(c[j].tol, c[ci].tol)));
@@ -367,7 +399,7 @@ struct C09 : vr::Driver {
     r.nontrivial(obs);
   }
   std::string rule() override {
-    return "flat sets of 3 equally-preferred siblings, dry=true, first choice = cgroup named by the '(dry)' record of the evaluation tick. "
+    return "flat sets of 3 equally-preferred siblings (kill_by_memory_size_or_growth also 4 and 5 siblings over 6 profiles, where growing_size_percentile selects a different rank), dry=true, first choice = cgroup named by the '(dry)' record of the evaluation tick. "
            "kill_by_memory_size_or_growth: 10 (previous usage, usage, memory.low) profiles per sibling (sizes 0..2^61, 2^31 and 2^32 boundaries, "
            "growth x1/x1.05/x1.25/x2/from nothing, half/fully protected) after a 5-tick warm-up x size_threshold {0,50,100} x min_growth_ratio "
            "{1,1.25,1.5} x growing_size_percentile {0,50,80,99}; kill_by_swap_usage: swap {0,1,2^20,2^31-4096,2^31,2^32+4096,(2^40,2^61)} per sibling x 4 "
